@@ -42,12 +42,30 @@ def BFix.current : BFix := BFix.none
 /-- bytes an initialised allocation may touch before the harness calls it `bloat` -/
 def touchCap : Int := 300 * 1024 * 1024
 
-/-- `ref_malloc(ptr, n, REF_DBL)` with `n` an `int` expression whose exact value is `n`: overflow, negative, cap -/
-def mallocDbl (n : Int) (touched : Bool) : Except Status Unit :=
-  if ¬ int32 n then .error .undefined
-  else if n < 0 then .error .failure
-  else if (2 ^ 30 : Int) < 8 * n then .error .null
-  else if touched ∧ touchCap < 8 * n then .error .null
+/-- outcome of a reader that is not a result: a C status (or one of the model's `undefined` / `diverge`), or `bloat`:
+    an allocation sized by a declared count alone was granted AND initialised (more than `touchCap` bytes touched) -/
+inductive BErr
+  | st (s : Status)
+  | bloat
+  deriving DecidableEq, Repr, Inhabited
+
+def BErr.name : BErr → String
+  | .st s => s.name
+  | .bloat => "bloat"
+
+abbrev B (α : Type) := Except BErr α
+
+def liftS {α : Type} : Except Status α → B α
+  | .ok a => .ok a
+  | .error e => .error (.st e)
+
+/-- `ref_malloc(ptr, n, REF_DBL)` with `n` an `int` expression whose exact value is `n`: overflow, negative, cap;
+    `touched`: `ref_malloc_init` -/
+def mallocDbl (n : Int) (touched : Bool) : B Unit :=
+  if ¬ int32 n then .error (.st .undefined)
+  else if n < 0 then .error (.st .failure)
+  else if (2 ^ 30 : Int) < 8 * n then .error (.st .null)
+  else if touched ∧ touchCap < 8 * n then .error .bloat
   else .ok ()
 
 /-- the vertex-array capacity after `n` calls of ref_node_add: 20, then `+ MAX(5000, 1.5 * max)` -/
@@ -119,14 +137,14 @@ def idleCap : Int := 10 ^ 7
 /-- what ref_part_scalar_rst does between the header and the first `fread` of data, on `np` ranks whose largest vertex
     array holds `nodeMax` slots: `ldim` or the status / hazard -/
 def rstPlan (fx : BFix) (nGlobal : Nat) (nodeMax : Nat) (np : Nat) (floor : Int) (bs : Bytes) :
-    Except Status (RstHeader × Int × Int × Bytes) :=
+    B (RstHeader × Int × Int × Bytes) :=
   match rstHeader bs with
-  | .error e => .error e
+  | .error e => .error (.st e)
   | .ok (h, s) =>
-  if fx.rst ∧ !rstCountsFit h s.length then .error .failure else
-  if (nGlobal : Int) > h.dof then .error .failure else
+  if fx.rst ∧ !rstCountsFit h s.length then .error (.st .failure) else
+  if (nGlobal : Int) > h.dof then .error (.st .failure) else
   let ldim := h.variables * h.steps
-  if ¬ int32 ldim then .error .undefined else
+  if ¬ int32 ldim then .error (.st .undefined) else
   match mallocDbl (ldim * nodeMax) false with
   | .error e => .error e
   | .ok _ =>
@@ -134,7 +152,7 @@ def rstPlan (fx : BFix) (nGlobal : Nat) (nodeMax : Nat) (np : Nat) (floor : Int)
   match mallocDbl (h.variables * chunk) true with
   | .error e => .error e
   | .ok _ =>
-  if ¬ fx.rst ∧ idleCap < rstIdle h then .error .diverge else
+  if ¬ fx.rst ∧ idleCap < rstIdle h then .error (.st .diverge) else
   .ok (h, ldim, chunk, s)
 
 def appendRows (a b : List Row) : List Row := List.zipWith (· ++ ·) a b
@@ -155,12 +173,12 @@ def rstSteps (dof floor : Int) (variables : Nat) (ranks : List (List Nat)) :
 
 /-- ref_part_scalar_rst on `ranks` (`ranks[r]` = the global ids of rank `r`'s vertices in local order) -/
 def partScalarRst (fx : BFix) (floor : Int) (nGlobal : Nat) (nodeMax : Nat) (ranks : List (List Nat)) (bs : Bytes) :
-    Except Status (Int × List (List Row)) :=
+    B (Int × List (List Row)) :=
   match rstPlan fx nGlobal nodeMax ranks.length floor bs with
   | .error e => .error e
   | .ok (h, ldim, _, s) =>
     match rstSteps h.dof floor h.variables.toNat ranks h.steps.toNat (ranks.map fun gl => List.replicate gl.length []) s with
-    | .error e => .error e
+    | .error e => .error (.st e)
     | .ok (arrs, _) => .ok (ldim, arrs)
 
 /-! ## `.snap` -/
@@ -221,38 +239,38 @@ def snapFieldHeader (version : Nat) (bs : Bytes) : P (Int × Int) := fun s =>
 
 /-- the fields one after the other; column `field` of every vertex row -/
 def snapFields (fx : BFix) (version : Nat) (nGlobal : Nat) (floor : Int) (ranks : List (List Nat)) (bs : Bytes) :
-    Nat → List (List Row) → Bytes → Except Status (List (List Row))
+    Nat → List (List Row) → Bytes → B (List (List Row))
   | 0, acc, _ => .ok acc
   | k + 1, acc, s =>
     match snapFieldHeader version bs s with
-    | .error e => .error e
+    | .error e => .error (.st e)
     | .ok ((next, nnode), s) =>
-    if nnode ≠ nGlobal ∧ Int.tdiv nnode 2 ≠ nGlobal then .error .failure else
+    if nnode ≠ nGlobal ∧ Int.tdiv nnode 2 ≠ nGlobal then .error (.st .failure) else
     -- `ref_mpi_bcast(.., &nnode, 1, REF_INT_TYPE)` of a REF_GLOB: on two or more ranks the others keep the upper half
     -- of their `-1`, skip the read loop and meet rank 0 in a different collective (MPI_ERR_TRUNCATE)
-    if ¬ fx.snapBcast ∧ 1 < ranks.length then .error .undefined else
+    if ¬ fx.snapBcast ∧ 1 < ranks.length then .error (.st .undefined) else
     match mallocDbl (chunkOfR floor nnode ranks.length) true with
     | .error e => .error e
     | .ok _ =>
-    if s.length < 8 * (min (chunkOfR floor nnode ranks.length) nnode).toNat then .error .failure else
+    if s.length < 8 * (min (chunkOfR floor nnode ranks.length) nnode).toNat then .error (.st .failure) else
     match scatterFile false nnode nnode floor 1 (rdMany (Solb.rdF64s 1)) ranks
             (ranks.map fun gl => List.replicate gl.length []) s with
-    | .error e => .error e
+    | .error e => .error (.st e)
     | .ok (arrs, s) =>
-      if nnode = nGlobal ∧ next ≠ tell bs s then .error .failure else
+      if nnode = nGlobal ∧ next ≠ tell bs s then .error (.st .failure) else
       snapFields fx version nGlobal floor ranks bs k (List.zipWith appendRows acc arrs) s
 
 /-- what ref_part_scalar_snap does before the first field: version 2..3, `ldim = (REF_INT)number_of_fields`, the
     `ldim * ref_node_max` allocation -/
-def snapPlan (fx : BFix) (nodeMax : Nat) (bs : Bytes) : Except Status (Nat × Int × Bytes) :=
+def snapPlan (fx : BFix) (nodeMax : Nat) (bs : Bytes) : B (Nat × Int × Bytes) :=
   match rdU64 bs with
-  | .error e => .error e
+  | .error e => .error (.st e)
   | .ok (ver, s) =>
-  if ver < 2 ∨ 3 < ver then .error .failure else
+  if ver < 2 ∨ 3 < ver then .error (.st .failure) else
   match rdU64 s with
-  | .error e => .error e
+  | .error e => .error (.st e)
   | .ok (nf, s) =>
-  if fx.snap ∧ ¬ (nf ≤ s.length / 8) then .error .failure else
+  if fx.snap ∧ ¬ (nf ≤ s.length / 8) then .error (.st .failure) else
   let ldim := wrap32 nf
   match mallocDbl (ldim * nodeMax) false with
   | .error e => .error e
@@ -260,7 +278,7 @@ def snapPlan (fx : BFix) (nodeMax : Nat) (bs : Bytes) : Except Status (Nat × In
 
 /-- ref_part_scalar_snap -/
 def partScalarSnap (fx : BFix) (floor : Int) (nGlobal : Nat) (nodeMax : Nat) (ranks : List (List Nat)) (bs : Bytes) :
-    Except Status (Int × List (List Row)) :=
+    B (Int × List (List Row)) :=
   match snapPlan fx nodeMax bs with
   | .error e => .error e
   | .ok (ver, ldim, s) =>
@@ -268,7 +286,7 @@ def partScalarSnap (fx : BFix) (floor : Int) (nGlobal : Nat) (nodeMax : Nat) (ra
     match snapFields fx ver nGlobal floor ranks bs (min ldim.toNat (s.length + 1))
             (ranks.map fun gl => List.replicate gl.length []) s with
     | .error e => .error e
-    | .ok arrs => if ldim.toNat ≤ s.length + 1 then .ok (ldim, arrs) else .error .failure
+    | .ok arrs => if ldim.toNat ≤ s.length + 1 then .ok (ldim, arrs) else .error (.st .failure)
 
 /-! ## `.plt` (header and zone validation) -/
 
@@ -436,8 +454,8 @@ def pltFlags (nvar : Nat) (want : Int) : P Unit := fun s =>
     | .error e => .error e
     | .ok (xs, s) => if xs.any (· ≠ want) then .error .failure else .ok ((), s)
 
-/-- ref_part_plt_data for one zone -/
-def pltData (fx : BFix) (nvar : Int) (z : PltZone) : P Unit := fun s =>
+/-- the part of ref_part_plt_data before the block of values is sized: the formats of the variables -/
+def pltDataHead (nvar : Int) (z : PltZone) : P (Nat × List Int) := fun s =>
   match pltNodePer z.zonetype with
   | none => .error .failure
   | some nodePer =>
@@ -460,16 +478,22 @@ def pltData (fx : BFix) (nvar : Int) (z : PltZone) : P Unit := fun s =>
   if conn ≠ -1 then .error .failure else
   match skipBytes (16 * nvar.toNat) s with
   | .error e => .error e
-  | .ok (_, s) =>
-  if fx.plt ∧ ¬ (0 ≤ z.nnode ∧ (nvar ≤ 0 ∨ z.nnode ≤ (s.length / 4 : Nat) / nvar)) then .error .failure else
+  | .ok (_, s) => .ok ((nodePer, fmts), s)
+
+/-- ref_part_plt_data for one zone -/
+def pltData (fx : BFix) (nvar : Int) (z : PltZone) (s : Bytes) : B (Unit × Bytes) :=
+  match pltDataHead nvar z s with
+  | .error e => .error (.st e)
+  | .ok ((nodePer, fmts), s) =>
+  if fx.plt ∧ ¬ (0 ≤ z.nnode ∧ (nvar ≤ 0 ∨ z.nnode ≤ (s.length / 4 : Nat) / nvar)) then .error (.st .failure) else
   match mallocDbl (nvar * z.nnode) false with
   | .error e => .error e
   | .ok _ =>
   match pltVars fmts z.nnode.toNat s with
-  | .error e => .error e
-  | .ok (_, s) => skipBytes (4 * nodePer * (min z.nelem.toNat (s.length + 1))) s
+  | .error e => .error (.st e)
+  | .ok (_, s) => liftS (skipBytes (4 * nodePer * (min z.nelem.toNat (s.length + 1))) s)
 
-def pltZonesData (fx : BFix) (nvar : Int) : List PltZone → P Unit
+def pltZonesData (fx : BFix) (nvar : Int) : List PltZone → Bytes → B (Unit × Bytes)
   | [], s => .ok ((), s)
   | z :: zs, s =>
     match pltData fx nvar z s with
@@ -477,9 +501,9 @@ def pltZonesData (fx : BFix) (nvar : Int) : List PltZone → P Unit
     | .ok (_, s) => pltZonesData fx nvar zs s
 
 /-- ref_part_scalar_plt as far as the file decides it: `ldim = nvar - 3`, or the status / hazard -/
-def partScalarPlt (fx : BFix) (nodeMax : Nat) (bs : Bytes) : Except Status Int :=
+def partScalarPlt (fx : BFix) (nodeMax : Nat) (bs : Bytes) : B Int :=
   match pltHeader bs with
-  | .error e => .error e
+  | .error e => .error (.st e)
   | .ok ((nvar, zs), s) =>
   let ldim := nvar - 3
   match mallocDbl (ldim * nodeMax) true with
